@@ -57,6 +57,8 @@ fn parse_schema_definition(
     let pos = pc.step(&pair);
     let mut pairs = pair.into_inner();
 
+    // `SchemaDefinition` has no field for the description
+    let _description = next_if_rule(&mut pairs, Rule::string);
     let extend = next_if_rule(&mut pairs, Rule::extend).is_some();
     let directives = parse_opt_const_directives(&mut pairs, pc)?;
 
